@@ -478,10 +478,19 @@ def run_batch(args):
     res = Res()
     t0 = time.time()
     gc.disable()   # thousands of live (cyclic) graph objects make generational collections quadratic; collect once at the end
+    deadline = float(env.get("C25_DEADLINE", "0") or 0)
+
     def gen_all():
         for sp in spec:
             if sp[0] == "enum":
-                yield from enum_cases(*sp[1:])
+                _, n, loops, lo, hi, step = sp
+                if deadline and time.time() > deadline and step == 1:
+                    # time budget of the tier exhausted (overloaded machine): sample this block instead of dropping it
+                    res.count("enum_blocks_sampled_after_deadline")
+                    lo, step = lo + (hi - lo) % 7, 7
+                else:
+                    res.count("enum_blocks_complete" if step == 1 else "enum_blocks_sampled")
+                yield from enum_cases(n, loops, lo, hi, step)
             else:
                 yield from sp[1]
     cases = gen_all()
@@ -820,6 +829,9 @@ def check(ctx, only=None):
             bins[i] += specs
             load[i] += cost
         bins = [b for b in bins if b]
+    # budget: the exhaustive blocks are complete as long as the tier is within its time budget; on an overloaded
+    # machine the blocks started after the deadline are sampled (stride 7) and the evidence says so
+    env["C25_DEADLINE"] = str(ctx.t0 + (570 if ctx.thorough else 75))
     with multiprocessing.get_context("fork").Pool(16) as pool:
         fails, dis = [], []
         for r in pool.imap_unordered(run_batch, [(b, env) for b in bins]):
@@ -830,7 +842,10 @@ def check(ctx, only=None):
         ctx.fail(f.pop("signature"), f.pop("what"), f.pop("case"), **f)
     for d in sorted(dis, key=lambda d: Res.size(d["case"]))[:200]:
         ctx.disagree(d["what"], d["case"], d["impl"], d["model"])
-    ctx.extra_cov["exhaustive"] = bool(ctx.thorough) and only is None
+    degraded = ctx.counts.get("enum_blocks_sampled_after_deadline", 0)
+    ctx.extra_cov["exhaustive"] = bool(ctx.thorough) and only is None and not degraded
+    if degraded:
+        ctx.note(f"time budget reached: {degraded} enumeration blocks were sampled (every 7th edge set) instead of enumerated completely")
     ctx.extra_cov["exhaustive_domain"] = (
         "all labelled digraphs with entry 0 and all nodes reachable: n<=4 incl. self-loops and n=5 without self-loops (thorough); "
         "n<=3 complete, n=4 every 3rd edge set, n=5 sampled with odd strides (quick); each also reversed with exit 0 for the post-dominator side")
